@@ -172,17 +172,48 @@ def entries_independent(ctx, rule):
     if m.loop_base != m.sigmap:
         ctx.note("%s not evaluated: verify_signable does not iterate the signature map (C02's decision table is undefined for this shape)" % rule)
         return
+    from .vs import le_facts
+
     unjust = 0
+    why = []
+    lenG = CallT("builtin:len", [m.G]) if m.G is not None else None
+    acc = frozenset({(lenG, -1), (m.threshold, 1)}) if lenG is not None else None
     for bp in m.body:
         if bp.kind == "raise":
             unjust += 1
+            why.append("an exception leaves the loop (%s)" % bp.payload.exc)
             continue
-        cube, _extra = cube_of(eng, m, bp)
-        if bp.outcome == "skip" and not justified_skip(cube):
+        early_accept = acc is not None and any(co == acc and c <= 0 for _f, (co, c) in le_facts(bp.facts))
+        if bp.kind in ("break", "return") and not bp.stores and not early_accept:
             unjust += 1
-        if bp.outcome.startswith("count") and not _forced_count(cube, ATOMS, spec):
-            unjust += 1  # counted although the specification does not require (allow) it
-    ctx.ob(rule, "entries-independent", fn_site(eng, m.sm).loc(), "each signature entry is counted or skipped on its own merits (%d loop-body paths, %d unjustified skips/aborts): removing non-counting entries cannot change the counted set" % (len(m.body), unjust), unjust == 0)
+            why.append("the loop is left by '%s' on a condition other than the accept condition" % bp.kind)
+            continue
+        # what decides this entry's fate may mention the entry, the call's arguments and values
+        # computed from them - not what earlier iterations left behind (variables carried round
+        # the loop, the set of entries counted so far) and not module-level state
+        carried = [f for f in bp.facts if f[0] in ("eq", "ne", "cmp", "notcmp", "truthy", "falsy", "ret", "is", "isnot", "in", "notin") and _loop_carried(f, m.G) and not (early_accept and lenG is not None and mentions(f, lenG))]
+        if carried:
+            unjust += 1
+            why.append("the decision depends on what earlier entries left behind: %s" % show_fact(carried[0])[:120])
+    ctx.ob(rule, "entries-independent", fn_site(eng, m.sm).loc(), "each signature entry is counted or skipped on its own merits (%d loop-body paths, %d unjustified skips/aborts%s): removing non-counting entries cannot change the counted set" % (len(m.body), unjust, ": " + "; ".join(sorted(set(why)))[:300] if why else ""), unjust == 0)
+
+
+def _loop_carried(f, G):
+    """does the fact mention a variable carried round the loop (a value an earlier iteration may
+    have set), the accumulator, or a mutable module-level object"""
+
+    def go(t):
+        if isinstance(t, tuple):
+            if len(t) == 3 and t[0] == "fresh" and isinstance(t[1], str) and t[1].startswith(("loopvar_", "while_")):
+                return True
+            if G is not None and t == G:
+                return True
+            return any(go(y) for y in t)
+        if isinstance(t, frozenset):
+            return any(go(y) for y in t)
+        return False
+
+    return go(f)
 
 
 REQUIRED_ENTRIES = ("type", "metadata_spec_version", "delegations", "expiration")
